@@ -340,6 +340,17 @@ func vrtPath(s string) bool {
 	return true
 }
 
+// vrtDotPath: an import path that may contain dots (gopkg.in/yaml.v2, example.com/api.v2).
+func vrtDotPath(s string) bool {
+	for i := 0; i < len(s); i++ {
+		c := s[i]
+		if !(c >= 'a' && c <= 'z') && !(c >= 'A' && c <= 'Z') && !(c >= '0' && c <= '9') && c != '_' && c != '/' && c != '-' && c != '.' {
+			return false
+		}
+	}
+	return true
+}
+
 // vrtEmitted / vrtCount: what write() emitted. Natively the rendered text is searched; symbolically
 // the engine answers from the events recorded by the generator stubs.
 func vrtEmitted(buf interface{ String() string }) string { return buf.String() }
